@@ -13,10 +13,14 @@ Every run of the same (model bytes, effective options) lands in one equivalence 
 Lean as `detclass <status|size|sha256|figures> ...` and must come back `1`. Separate classes compare the
 summary CSV (only `main` writes one) and the debug database XML.
 
-A class that disagrees is a violation with the exact scenario as replay, unless the harness-side instrumentation
-attributes the disagreeing run to a recorded finding (see KEY_* below): the attribution needs the precise
-mechanism (a cross-compilation hit of the weight cache on a value id that came from the process-wide
-`create_equivalence_id` memo, ...), so a different history dependence in the same network is still reported.
+A class that disagrees is a violation with the exact scenario as replay. The five history / iteration-order
+dependences found in the first round (stale weight-cache hits, stale tensor addresses, debug database not cleaned by
+main, greedy allocator and writer sorting a set with ties) are repaired in /repo (known_findings.txt: `fixed:` lines);
+nothing is attributed to a known finding any more. The harness-side instrumentation that used to attribute them is
+kept as evidence counters (a cross-compilation hit of the weight cache must not happen at all now).
+
+ (3) the greedy allocator on live ranges it cannot tell apart, re-created at different heap addresses: the addresses it
+     hands out must depend on the creation order only.
 """
 import csv
 import hashlib
@@ -41,12 +45,6 @@ import pipe_common
 import pipeline
 import detnets
 from common import Check, main_wrapper
-
-KEY_ADDR = "AssertionError@tensor.set_address_for_tens:stale-address-of-memoised-equivalence-id"
-KEY_WCACHE = "stale-CompressedWeightCache-hit:value_id-from-create_equivalence_id"
-KEY_DUP = "writer-tensor-order:duplicate-tensor-names-tie-broken-by-set-iteration"
-KEY_DEBUGDB = "DebugDatabase-not-cleared-by-main"
-KEY_GREEDY = "greedy-allocation-order:equal-live-ranges-tie-broken-by-set-iteration"
 
 # summary CSV columns that are NOT compared: constant label, and the network name (derived from the file name)
 CSV_SKIP = ("experiment", "network")
@@ -472,24 +470,6 @@ def canon_tensor_multiset(model_bytes):
     return repr((out, m["operator_codes"], meta, m["description"]))
 
 
-def classify(ref, obs):
-    if obs["status"].startswith("exception:AssertionError@tensor.set_address_for_tens") and \
-            any(memo and conflict for memo, conflict in obs["stale_addr"]):
-        return KEY_ADDR
-    if any(obs["stale_hits"]) and all(obs["stale_hits"]):
-        return KEY_WCACHE
-    if obs["dupnames"] and ref["status"] == "ok" and obs["status"] == "ok" and ref["size"] == obs["size"] and \
-            ref.get("model") and obs.get("model"):
-        try:
-            if canon_tensor_multiset(ref["model"]) == canon_tensor_multiset(obs["model"]):
-                return KEY_DUP
-        except Exception:
-            return None
-    if obs.get("greedy_ties") and ref["status"] == "ok" and obs["status"] == "ok" and ref["size"] == obs["size"]:
-        return KEY_GREEDY
-    return None
-
-
 # ------------------------------------------------------------------------------------------------
 # the writer's sort expression (text taken from the tree under test) against the Lean model `emitOrder`
 
@@ -559,6 +539,63 @@ def writer_sort_correspondence(ck, info):
 
 
 
+# ------------------------------------------------------------------------------------------------
+# the greedy allocator on indistinguishable live ranges
+
+def greedy_tie_probe(ck):
+    """Same list of live ranges (with ties in start, end, size, name), objects re-created at different heap addresses:
+    the address given to the i-th live range must be the same every time. Judged by `detclass`."""
+    from ethosu.vela import greedy_allocation, live_range
+
+    class PLR(live_range.LiveRange):
+        def set_address(self, address):
+            self.got = address
+            return address
+
+    rng = ck.rng
+    nspecs = 60 if ck.thorough else 12
+    trials = 24
+    lines, specs, results = [], [], []
+    junk = []
+    for _ in range(nspecs):
+        n = rng.randint(3, 8)
+        base = [(rng.randint(0, 3), rng.randint(4, 8), 16 * rng.randint(1, 4), rng.choice(["w", "w", "b", "t"])) for _ in range(n)]
+        spec = base + [rng.choice(base) for _ in range(rng.randint(1, 3))]      # ties
+        rng.shuffle(spec)
+        toks, addrs_all = [], []
+        for _t in range(trials):
+            junk.append([object() for _ in range(rng.randint(1, 40))])             # move the heap
+            graph = live_range.LiveRangeGraph()
+            for (st, en, sz, nm) in spec:
+                lr = PLR(None, 16)
+                lr.start_time, lr.end_time, lr.size, lr.name = st, en, sz, nm
+                graph.lrs.append(lr)
+            try:
+                total = greedy_allocation.allocate_live_ranges(graph, 16)
+                addrs = [getattr(lr, "got", None) for lr in graph.lrs] + [total]
+                status = "ok"
+            except Exception as e:  # noqa: B902
+                addrs, status = [], "exception:" + type(e).__name__
+            addrs_all.append(addrs)
+            toks.append(f"{status}|{len(addrs)}|{hashlib.sha256(repr(addrs).encode()).hexdigest()[:24]}|")
+        lines.append("detclass " + " ".join(toks))
+        specs.append(spec)
+        results.append(addrs_all)
+        ck.count("greedy_tie_cases")
+    for spec, res, v in zip(specs, results, ck.model(lines, parallel=False)):
+        if v != "1":
+            distinct = []
+            for a in res:
+                if a not in distinct:
+                    distinct.append(a)
+            ck.violation(f"GreedyAllocator gives different addresses to the same list of live ranges {spec} depending on where the "
+                         f"objects live in memory: {distinct[:2]}",
+                         {"live_ranges_start_end_size_name": spec, "addresses_seen": distinct[:4], "alignment": 16,
+                          "how": "greedy_allocation.allocate_live_ranges on a LiveRangeGraph whose lrs are re-created between trials"})
+            break
+    return nspecs * trials
+
+
 def obs_token(o, what):
     st = re.sub(r"[^A-Za-z0-9_.:@<>=-]", "_", o["status"])
     if what == "bytes":
@@ -594,6 +631,7 @@ def main():
         hseeds = [0, 1] + [ck.rng.randrange(2, 1 << 32) for _ in range(nseeds - 2)]
         cli_jobs = [(list(spec), opts, hs, common._ext_dir) for spec, opts in cli_nets for hs in hseeds]
     nsort = writer_sort_correspondence(ck, info)
+    ngreedy = greedy_tie_probe(ck)
     jobs = min(16, os.cpu_count() or 4)
     ctx = multiprocessing.get_context("fork")
     with ProcessPoolExecutor(jobs, mp_context=ctx) as ex:
@@ -667,7 +705,6 @@ def main():
 
     nontrivial = 0
     disagreeing = 0
-    examples = {}
     for (key, what, sel), v in zip(owners, verdicts):
         histories = {(m[1]["scenario"]["shape"], m[1]["step_index"], m[1]["step"]["entry"], m[1]["step"].get("hashseed")) for m in sel}
         if what == "bytes" and len(histories) >= 2:
@@ -684,9 +721,7 @@ def main():
         for o, where in sel[1:]:
             if obs_token(o, what) == tok0:
                 continue
-            k = classify(ref, o)
-            if what == "debugdb" and k is None and where["step"]["entry"] == "main" and not where["step"].get("reset") and where["step_index"] > 0:
-                k = KEY_DEBUGDB
+            k = None
             sig = (k, o["status"], where["scenario"]["shape"])
             if sig in reported:
                 continue
@@ -703,9 +738,6 @@ def main():
                  "lean_request": "detclass " + tok0 + " " + obs_token(o, what),
                  "how_to_replay": "./check C14 --replay <this file>  (runs the reference alone and the scenario, each in a fresh interpreter)"},
                 key=k)
-            if k is not None and k not in examples:
-                examples[k] = {"compared": what, "sequence": hist, "observed": f"{o['status']} size={o['size']} sha={o['digest'][:12]}",
-                               "alone": f"{ref['status']} size={ref['size']} sha={ref['digest'][:12]}", "source_ops": o["src_ops"]}
     for (key, what, sel), v in list(zip(owners, verdicts))[:3]:
         ck.sample({"class": [key[0][0], key[0][1], key[1]], "compared": what, "runs": len(sel), "verdict": v,
                    "first": obs_token(sel[0][0], what)[:160]})
@@ -716,7 +748,8 @@ def main():
                        "effective options) form a class whose (ending, output size, SHA-256, summary columns, debug database) the Lean "
                        "judge Determinism.agree must find identical. Props/C14 proves when the abstract process-state model is history "
                        "independent and exhibits the witnesses where the unchanged code is not.",
-        "evaluations": nsteps + len(cli_results) + nsort,
+        "evaluations": nsteps + len(cli_results) + nsort + ngreedy,
+        "greedy_tie_trials": ngreedy,
         "compilations_observed": nsteps + len(cli_results),
         "writer_sort_cases": nsort,
         "distinct_nontrivial": nontrivial,
@@ -725,7 +758,6 @@ def main():
         "classes": len(classes),
         "scenarios": len(scns),
         "disagreeing_classes": disagreeing,
-        "known_finding_examples": examples,
         "hash_seeds": sorted({j[2] for j in cli_jobs}),
         "compared_csv_columns": "all columns of <name>_summary_<system config>.csv except " + ", ".join(CSV_SKIP) + " (the file holds no wall-clock field)",
         "entry_point_options": hardcoded,
